@@ -1,9 +1,9 @@
 """C15 - fallible operations fail by value, not by panic or hang."""
 PROPS = {
-    "C15": dict(design=[], drive="C15",
+    "C15": dict(design=["StrftimeItems"], drive="C15",
                 level_text="Totality.tla is the action table of C15: every public non-deprecated fallible entry point has only the outcomes ok / none / err / ambiguous, for every argument, "
                            "and returned values are valid values of their type; documented-to-panic operations are listed separately. A dedicated extremes driver calls each entry point with "
-                           "integer extremes, both range ends, headroom wall clocks, arbitrary Unicode text and arbitrary format strings (item iteration under an explicit bound), and TLC validates "
+                           "integer extremes, both range ends, headroom wall clocks, arbitrary Unicode text and arbitrary format strings (item iteration under an explicit bound, and the item COUNT must equal that of the specification's tokeniser StrftimeItems.tla, whose progress variant is model-checked), and TLC validates "
                            "each recorded outcome against the table. Every other property's trace specification also rejects panics, so all checks contribute to C15.",
                 level="model_checking",
                 technique="TLA+ action table of fallible operations; TLC trace validation of an extremes/fuzz driver over every entry point (overflow checks and debug assertions on)",
